@@ -790,7 +790,18 @@ func (sc *c09Scenario) round() {
 			defer wg.Done()
 			req := httptest.NewRequest("POST", "/ct/v1/"+c09Endpoints[s.spec.endpoint], bytes.NewReader(s.body)).WithContext(ctx)
 			rr := httptest.NewRecorder()
-			sc.handler.ServeHTTP(rr, req)
+			func() {
+				// a panic of the handler is no clean rejection: behind net/http it aborts the connection without an answer.
+				// It is reported as what the submitter would get, status 0, and judged below like any other answer.
+				defer func() {
+					if r := recover(); r != nil {
+						rr = httptest.NewRecorder()
+						rr.Code = 0
+						rr.Body.WriteString(fmt.Sprintf("HANDLER PANIC: %v", r))
+					}
+				}()
+				sc.handler.ServeHTTP(rr, req)
+			}()
 			s.code, s.resp = rr.Code, rr.Body.Bytes()
 			answered.Add(1)
 		}()
